@@ -1099,6 +1099,78 @@ impl CompositeCase {
         }
     }
 
+    // ----- buffers of 4 GiB and more
+
+    /// `composite whuge fut=… extra=<k> tail=<t> ks=…`: the input is a `&'static [u8]` of
+    /// 2^32 + k bytes (untouched `MAP_NORESERVE` memory) through a10's own `Buf` implementation,
+    /// for the vectored futures followed by a second slice of t bytes.
+    fn run_whuge(&mut self, toks: &[&str]) -> Option<Vec<String>> {
+        let fut = kvs(toks, "fut")?.to_string();
+        let k = num(kvs(toks, "extra")?)? as usize;
+        let t = num(kvs(toks, "tail")?)? as usize;
+        let ks = num_list(kvs(toks, "ks")?)?;
+        let single = fut == "write_all" || fut == "send_all";
+        if k > 4096 || t > 4096 || (single && t != 0) || !matches!(fut.as_str(), "write_all" | "send_all" | "write_all_vectored" | "send_all_vectored") {
+            return None;
+        }
+        let total = (1usize << 32) + k;
+        let p = unsafe { libc::mmap(std::ptr::null_mut(), total, libc::PROT_READ | libc::PROT_WRITE, libc::MAP_PRIVATE | libc::MAP_ANONYMOUS | libc::MAP_NORESERVE, -1, 0) };
+        if p == libc::MAP_FAILED {
+            return Some(vec!["skip mmap".into()]);
+        }
+        let huge: &'static [u8] = unsafe { std::slice::from_raw_parts(p.cast::<u8>(), total) };
+        let small: &'static [u8] = Box::leak(vec![0x5au8; t].into_boxed_slice());
+        let mut bases = vec![(p as usize, total)];
+        if !single {
+            bases.push((small.as_ptr() as usize, t));
+        }
+        let mut ring = self.ring.take().unwrap();
+        let fd = self.fd.take().unwrap();
+        let mut d = Drive::new(self.rfd, false, ks, None, bases, false);
+        let out = {
+            let mut f: Pin<Box<dyn Future<Output = io::Result<()>> + '_>> = match fut.as_str() {
+                "write_all" => Box::pin(fd.write_all(huge)),
+                "send_all" => Box::pin(fd.send_all(huge)),
+                "write_all_vectored" => Box::pin(fd.write_all_vectored([huge, small])),
+                _ => Box::pin(fd.send_all_vectored([huge, small])),
+            };
+            let out = d.run(&mut ring, f.as_mut());
+            drop(f);
+            out
+        };
+        if matches!(out, Outcome::Pending) {
+            settle(&mut ring, self.rfd);
+        }
+        self.ring = Some(ring);
+        self.fd = Some(fd);
+        let mut lines = std::mem::take(&mut d.lines);
+        let result = match &out {
+            Outcome::Ready(Ok(())) => "ok".to_string(),
+            Outcome::Ready(Err(e)) => format!("err={}", err_name(e)),
+            Outcome::Pending => "pending".to_string(),
+            Outcome::Panic(_) => "panic".to_string(),
+        };
+        lines.push(format!("result {result}"));
+        let handed: usize = d.recs.iter().filter_map(|r| r.res).map(|r| r as usize).sum();
+        let input = total + t;
+        lines.push(format!("input={input} handed={handed}"));
+        // oracle: success only after every byte of every input buffer was handed to the kernel
+        if result == "ok" && handed != input {
+            self.fail(&fut, "huge-buffer-truncated", format!("Ok after {handed} of {input} bytes were handed to the kernel (a buffer of 2^32+{k} bytes reports length {k}: `len as u32`)"));
+        }
+        if let Outcome::Panic(m) = &out {
+            self.fail(&fut, "panic", format!("panicked: {m}"));
+        }
+        for a in d.anomalies.drain(..) {
+            self.fail(&fut, "anomaly", a);
+        }
+        self.feats.push(format!("fut:{fut}"));
+        self.feats.push("huge-buffer(>=4GiB)".into());
+        self.nontrivial = true;
+        unsafe { libc::munmap(p, total) };
+        Some(lines)
+    }
+
     // ----- reading futures
 
     fn build_relem(j: usize, len: u64, cap: u64, lim: Option<u64>) -> (RB, (usize, usize)) {
@@ -1752,6 +1824,24 @@ fn gen_r(rng: &mut Rng) -> String {
 }
 
 /// The malformed stream: ops neither side may accept.
+/// A writing future over a buffer of 2^32 + k bytes.
+fn gen_whuge(rng: &mut Rng) -> String {
+    let fut = *rng.pick(&["write_all", "write_all_vectored", "send_all", "send_all_vectored"]);
+    let single = fut == "write_all" || fut == "send_all";
+    let k = match rng.below(4) {
+        0 => 0,
+        1 => 1,
+        _ => rng.range(2, 300),
+    };
+    let t = if single { 0 } else { rng.range(0, 40) };
+    let seen = k + t;
+    let ks = if seen == 0 || rng.chance(1, 2) { vec![u32::MAX as u64] } else {
+        let base = gen_script(rng, seen, &[k]);
+        finish_script(rng, base)
+    };
+    format!("composite whuge fut={fut} extra={k} tail={t} ks={}", fmt_list(&ks))
+}
+
 fn gen_bad(rng: &mut Rng) -> String {
     let good = if rng.chance(1, 2) { gen_w(rng) } else { gen_r(rng) };
     let toks: Vec<&str> = good.split(' ').collect();
@@ -1783,16 +1873,24 @@ impl Case for CompositeCase {
             return None;
         }
         self.left -= 1;
-        Some(match rng.weighted(&[16, 16, 1]) {
+        Some(match rng.weighted(&[32, 32, 2, 1]) {
             0 => gen_w(rng),
             1 => gen_r(rng),
-            _ => gen_bad(rng),
+            2 => gen_bad(rng),
+            _ => gen_whuge(rng),
         })
     }
 
     fn exec(&mut self, op: &str) -> Vec<String> {
         let toks: Vec<&str> = op.split(' ').collect();
         match toks.as_slice() {
+            ["composite", "whuge", rest @ ..] => match self.run_whuge(rest) {
+                Some(l) => l,
+                None => {
+                    self.feats.push("bad-op".into());
+                    vec!["bad-op".into()]
+                }
+            },
             ["composite", "w", rest @ ..] => match parse_w(rest) {
                 Some(s) => self.run_w(&s),
                 None => {
